@@ -255,6 +255,11 @@ void parallel_sort_mwms_pu(PMWMSSortingData<RandomAccessIterator>* sd,
 
     barrier.wait();
 
+    // destroy the copies constructed by uninitialized_copy before releasing
+    // the raw storage
+    for (DiffType i = 0; i < length_local; ++i)
+        sd->temporary[iam][i].~ValueType();
+
     operator delete(sd->temporary[iam]);
 }
 
